@@ -30,7 +30,7 @@ func init() { core.Register(c15{}) }
 
 func (c15) ID() string { return "C15" }
 func (c15) Rule() string {
-	return "plans: optional prologue (a writer process killed at a drawn point of a store), then one task issuing <= 15 of Set / Get / clock advance to next-update boundaries (-1s,-1ns,0,+1ns,+1s of base and delta) / at-rest corruption of an entry / Set under injected ENOSPC-EIO, over 2-4 URLs from an alphabet of near-identical, traversal-shaped, empty, 10 KB and NUL strings. Concurrent stores of two different URLs by two more writers (own cache instances) with tape-driven interleaving of their file-system steps. non-trivial: at least one Get was decided by the model against a stored entry (hit, expired, corrupted or after a failed store); distinct: hash of the op/fault sequence at scheduling points plus every Get verdict"
+	return "(bundles handed out are kept - the last four - and re-read after every later call) plans: optional prologue (a writer process killed at a drawn point of a store), then one task issuing <= 15 of Set / Get / clock advance to next-update boundaries (-1s,-1ns,0,+1ns,+1s of base and delta) / at-rest corruption of an entry / Set under injected ENOSPC-EIO, over 2-4 URLs from an alphabet of near-identical, traversal-shaped, empty, 10 KB and NUL strings. Concurrent stores of two different URLs by two more writers (own cache instances) with tape-driven interleaving of their file-system steps. non-trivial: at least one Get was decided by the model against a stored entry (hit, expired, corrupted or after a failed store); distinct: hash of the op/fault sequence at scheduling points plus every Get verdict"
 }
 func (c15) Components() map[string]string {
 	return map[string]string{
@@ -216,6 +216,7 @@ func fileNameOf(url string) string {
 func (l c15) Exec(env *core.Env) *core.Result {
 	p := env.Plan
 	res := &core.Result{}
+	var held []c15Held // bundles earlier gets returned (the last four), see the get operation
 	world.ResetSerial()
 	root := filepath.Join(env.Dir, "a", "cache")
 	os.MkdirAll(filepath.Join(env.Dir, "a", "cache2"), 0755)
@@ -543,7 +544,27 @@ func (l c15) Exec(env *core.Env) *core.Result {
 				} else {
 					url = c15URLs[op.Int(0)]
 				}
+				// bundles handed out earlier are the caller's: a later call, for whatever URL, must not change them
+				for _, h := range held {
+					if !bytes.Equal(h.bundle.BaseCRL.Raw, h.base) || (h.bundle.DeltaCRL != nil && !bytes.Equal(h.bundle.DeltaCRL.Raw, h.delta)) {
+						res.Violate("C15/returned-bundle-changed-later", "held "+short(h.url), "a bundle returned earlier for %s no longer reads as it did when it was returned (a later call was for %s)", short(h.url), short(h.changedBy))
+					}
+				}
 				b, err := cache.Get(ctx, url)
+				for i := range held {
+					if held[i].changedBy == "" || bytes.Equal(held[i].bundle.BaseCRL.Raw, held[i].base) {
+						held[i].changedBy = url
+					}
+				}
+				if err == nil && b != nil && b.BaseCRL != nil {
+					h := c15Held{url: url, bundle: b, base: bytes.Clone(b.BaseCRL.Raw)}
+					if b.DeltaCRL != nil {
+						h.delta = bytes.Clone(b.DeltaCRL.Raw)
+					}
+					if held = append(held, h); len(held) > 4 {
+						held = held[1:]
+					}
+				}
 				rt.Yield("returned") // a process that crashed meanwhile (a goroutine of its own met the crash) reports nothing
 				now = time.Now()
 				st := c15Step{Op: "get", URL: short(url), At: at}
@@ -639,12 +660,24 @@ func (l c15) Exec(env *core.Env) *core.Result {
 			res.Violate(core.PanicClass("C15", t.PanicStack), fmt.Sprint(t.PanicVal), "panic in task %s: %v\n%s", t.Role, t.PanicVal, t.PanicStack)
 		}
 	}
+	for _, h := range held {
+		if !bytes.Equal(h.bundle.BaseCRL.Raw, h.base) || (h.bundle.DeltaCRL != nil && !bytes.Equal(h.bundle.DeltaCRL.Raw, h.delta)) {
+			res.Violate("C15/returned-bundle-changed-later", "held "+short(h.url), "a bundle returned earlier for %s no longer reads as it did when it was returned (a later call was for %s)", short(h.url), short(h.changedBy))
+		}
+	}
 	// the sandbox outside the cache root is byte-identical
 	if diff := diffSnap(outsideBefore, snapshotExcept(env.Dir, root)); diff != "" {
 		res.Violate("C15/change-outside-cache-root", diff, "files outside the cache root changed: %s", diff)
 	}
 	res.Sample = map[string]any{"plan": p, "trace": trace}
 	return res
+}
+
+// c15Held is a bundle a Get returned, with a private copy of what it read as at that moment.
+type c15Held struct {
+	url, changedBy string
+	bundle         *corecrl.Bundle
+	base, delta    []byte
 }
 
 func short(s string) string {
